@@ -849,9 +849,9 @@ def float_tab_cmp(op, a, b):
     return mk_bool(z3.simplify(z3.Or(*parts)) if len(parts) < 3 else z3.Or(*parts))
 
 
-def float_tab_trunc(t):
-    """int(<SFloatTab>) -> SInt"""
-    groups = _group_entries(t.entries, lambda f: int(f))
+def float_tab_trunc(t, fn=int):
+    """int(<SFloatTab>) -> SInt  (fn = round for the built-in round() with one argument)"""
+    groups = _group_entries(t.entries, lambda f: fn(f))
     vals = [k for k, _ in groups]
     e = ival(groups[-1][0])
     for k, conds in reversed(groups[:-1]):
